@@ -57,5 +57,42 @@ class Tab(unittest.TestCase):
             pwc.tabulate(f)
 
 
+class Translation(unittest.TestCase):
+    def test_sign_offset(self):
+        # fn f(x: i32) -> u32 { (x as u32).wrapping_add(0x8000_0000) }
+        f = mkfn([
+            blk([assign(2, {"r": "cast", "kind": "IntToInt", "a": cp(1), "ty": "u32"})],
+                {"t": "call", "callee": "core::num::<impl u32>::wrapping_add", "args": [cp(2), const(0x80000000, "u32")], "dest": {"l": 0, "p": []}, "to": 1}),
+            blk([], {"t": "return"}),
+        ], ["u32", "i32", "u32"])
+        self.assertEqual(pwc.tabulate_translation(f), [(-(1 << 31), (1 << 31) - 1, 0x80000000)])
+
+    def test_two_pieces(self):
+        # fn f(x: u32) -> u32 { let o = if x >= 10 { 5 } else { 7 }; x.wrapping_add(o) }
+        f = mkfn([
+            blk([assign(2, {"r": "bin", "op": "Ge", "a": cp(1), "b": const(10, "u32")})], {"t": "switch", "discr": cp(2), "arms": [[0, 2]], "otherwise": 1}),
+            blk([assign(3, {"r": "use", "a": const(5, "u32")})], {"t": "goto", "to": 3}),
+            blk([assign(3, {"r": "use", "a": const(7, "u32")})], {"t": "goto", "to": 3}),
+            blk([], {"t": "call", "callee": "core::num::<impl u32>::wrapping_add", "args": [cp(1), cp(3)], "dest": {"l": 0, "p": []}, "to": 4}),
+            blk([], {"t": "return"}),
+        ], ["u32", "u32", "bool", "u32"])
+        self.assertEqual(pwc.tabulate_translation(f), [(0, 9, 7), (10, (1 << 32) - 1, 5)])
+
+    def test_product_is_rejected(self):
+        f = mkfn([blk([assign(0, {"r": "bin", "op": "Mul", "a": cp(1), "b": const(3, "u32")})], {"t": "return"})], ["u32", "u32"])
+        with self.assertRaises(pwc.NotInClass):
+            pwc.tabulate_translation(f)
+
+    def test_comparison_of_translated_value_is_rejected(self):
+        # let y = x + 1; if y >= 10 ..  -- the breakpoints would move with the offset
+        f = mkfn([
+            blk([assign(2, {"r": "bin", "op": "Add", "a": cp(1), "b": const(1, "u32")}),
+                 assign(3, {"r": "bin", "op": "Ge", "a": cp(2), "b": const(10, "u32")})], {"t": "switch", "discr": cp(3), "arms": [[0, 1]], "otherwise": 1}),
+            blk([assign(0, {"r": "use", "a": cp(2)})], {"t": "return"}),
+        ], ["u32", "u32", "u32", "bool"])
+        with self.assertRaises(pwc.NotInClass):
+            pwc.tabulate_translation(f)
+
+
 if __name__ == "__main__":
     unittest.main()
